@@ -53,6 +53,7 @@ func (w *Workers) Call(count int, value func() (interface{}, error)) (interface{
 		go w.worker()
 	}
 	w.mutex.Unlock()
+	verifHook("workers.call.queued")
 	result := <-output
 	return result.result, result.error
 }
@@ -102,6 +103,7 @@ func (w *Workers) check(count int, value func() (interface{}, error)) {
 
 func (w *Workers) worker() {
 	for {
+		verifHook("workers.worker.top")
 		w.mutex.Lock()
 		if len(w.queue) == 0 || w.count > w.target {
 			w.count--
@@ -115,6 +117,7 @@ func (w *Workers) worker() {
 		w.queue[0] = nil
 		w.queue = w.queue[1:]
 		w.mutex.Unlock()
+		verifHook("workers.worker.taken")
 		func() {
 			defer close(item.output)
 			var result struct {
